@@ -252,28 +252,55 @@ pub fn sys_lists(tier: Tier) -> Vec<Layout> {
                 }
             }
         }
-        // list arrays: two-part elements, stride >= span and interleaving stride
+        // list arrays: single-bit and multi-bit items in ascending / descending / shuffled order,
+        // stride = span, stride > span and interleaving strides (elements never collide)
         if b >= 16 {
-            for (stride, k) in [(8u32, 2u32), (2, 2), (8, b / 8)] {
-                let r = vec![Rng::new(0, 0), Rng::new(4, 5)];
-                let top = 5 + (k - 1) * stride;
-                if top >= b {
-                    continue;
+            let pats: Vec<(Vec<(u32, u32)>, Vec<u32>)> = vec![
+                (vec![(3, 3), (1, 1), (2, 2), (0, 0)], vec![4, 8, 5]),
+                (vec![(0, 0), (2, 2), (4, 4), (6, 6)], vec![1, 8, 9]),
+                (vec![(6, 6), (4, 4), (2, 2), (0, 0)], vec![1, 8]),
+                (vec![(4, 5), (1, 1)], vec![6, 8, 2]),
+                (vec![(1, 1), (4, 5)], vec![6, 7]),
+                (vec![(7, 7), (0, 2), (5, 5)], vec![8, 11]),
+                (vec![(0, 0), (4, 5)], vec![8, 2]),
+                (vec![(0, 0), (4, 4), (9, 9)], vec![2, 10]),
+                (vec![(2, 3), (0, 1)], vec![4, 16]),
+            ];
+            for (items, strides) in &pats {
+                let w: u32 = items.iter().map(|(lo, hi)| hi - lo + 1).sum();
+                let top = items.iter().map(|(_, hi)| *hi).max().unwrap();
+                let elem: u128 = items.iter().fold(0u128, |m, (lo, hi)| m | (mask(hi - lo + 1) << lo));
+                for st in strides {
+                    // largest K without collision that fits
+                    let mut k = 1u32;
+                    let mut m = elem;
+                    while top + k * st < b && (elem << (k * st)) & m == 0 && k < 16 {
+                        m |= elem << (k * st);
+                        k += 1;
+                    }
+                    for kk in [2u32, k] {
+                        if kk < 2 || kk > k {
+                            continue;
+                        }
+                        for ty in [uty(w), FieldTy::INat { bits: w }] {
+                            if matches!(ty, FieldTy::INat { .. }) && !is_native_width(w) {
+                                continue;
+                            }
+                            let f = Field {
+                                name: "la".into(),
+                                kw_bit: false,
+                                list: true,
+                                ranges: items.iter().map(|(lo, hi)| Rng { lo: *lo, hi: *hi, short: lo == hi }).collect(),
+                                array: Some(ArrayDecl { count: kk, stride: Some(*st), colon: false }),
+                                ty,
+                                access: Access::RW,
+                                arg_order: 0,
+                                opt_path: 0,
+                            };
+                            out.push(lay(b, vec![f]));
+                        }
+                    }
                 }
-                let mut r = r;
-                r[0].short = true;
-                let f = Field {
-                    name: "la".into(),
-                    kw_bit: false,
-                    list: true,
-                    ranges: if stride == 2 { vec![Rng::bit(0), Rng::new(4, 4), Rng::new(9, 9)] } else { r },
-                    array: Some(ArrayDecl { count: k, stride: Some(stride), colon: false }),
-                    ty: uty(3),
-                    access: Access::RW,
-                    arg_order: 0,
-                opt_path: 0,
-                };
-                out.push(lay(b, vec![f]));
             }
         }
     }
